@@ -28,6 +28,25 @@ def specs(tier):
         out.append(spec("hollow", "tinyring", ["|", "A", "B"], lim="1/20"))
         out.append(spec("hollow", "tinyring", ["^", "A", "B"], lim="1/20"))
         return out
+    pairs = [("square", "square"), ("tri", "unit"), ("penta", "quad"), ("hollow2", "square"), ("two", "square"), ("inv:square", "unit"), ("ell", "tri"),
+             ("opring", "unit"), ("youb", "bar2"), ("inv:two", "tri"), ("framedot", "rhombus")]
+    for A, B in pairs:
+        for op in OPS:
+            # the parameter range is cut into slabs so that one pair/operator uses several cores
+            for lo, hi in ((-3, -1), (-1, 0), (0, 1), (1, 3)):
+                out.append(spec(A, B, [op, "A", "B"], slab=[lo, hi], time_budget=2400, weight=3 if A in ("penta", "framedot", "inv:two") else 1))
+    for A, B in [("square", "unit"), ("tri", "square")]:
+        for op in OPS:
+            out.append(spec(A, B, [op, "A", "B"], direction=[1, 2], time_budget=2400))
+            out.append(spec(A, B, [op, "A", "B"], direction=[1, 0], time_budget=2400))
+    for e in EXPRS_QUICK + [("^", ("|", "A", "B"), "C"), ("-", "A", ("&", "B", "C")), ("|", ("&", "A", "C"), ("~", "B")), ("&", ("-", "A", "B"), ("~", "C")), ("*", ("+", "A", "B"), ("neg", "E"))]:
+        out.append(spec("square", "unit", e, C="tri", time_budget=2400))
+        out.append(spec("hollow2", "tri", e, C="unit", time_budget=2400))
+    for op in ("|", "&", "-"):
+        for sl in ((-2, -1), (-1, 0), (0, 1), (1, 2)):
+            out.append(spec("square", "unit", [op, "A", "B"], dof=2, lim=2, slab=list(sl), time_budget=2400, weight=5))
+    out.append(spec("hollow", "tinyring", ["|", "A", "B"], lim="1/20"))
+    out.append(spec("hollow", "tinyring", ["^", "A", "B"], lim="1/20"))
     return out
 
 
@@ -36,4 +55,9 @@ def main(tier, seed):
 
     r = Runner("C01", tier, seed)
     r.run_specs(specs(tier))
-    return r.finish(explanation="")
+    return r.finish(
+        explanation="The real operators executed under SYMX with B translated symbolically (1 parameter along an integer direction; 2 parameters for square x unit in the "
+        "thorough tier); per path cell z3 decides with the query point free that the region of the returned shape is the Boolean combination of the operand regions off "
+        "their boundaries (1.5e-6 band); raising / non-returning cells are violations where z3 finds a parameter with transversal boundaries.",
+        assumptions=["polygonal catalogue operands (<= 8 edges) incl. holes, several components, unbounded operands, Empty/Whole; expression depth <= 2", "curved operands outside"],
+    )
